@@ -5,6 +5,7 @@ from __future__ import annotations
 from .. import terms as tm
 from ..affine import Affine
 from ..model import AnalysisError
+from . import common
 from .common import ob, need, call_name, is_lit, role_of, roles
 from .. import symeval
 
@@ -485,6 +486,7 @@ def rule_allitems(ctx):
 
 
 RULES = [
+    ("C08.FIRSTN", 4, common.shared("c04", "rule_firstn", "C08.FIRSTN")),
     ("C08.ALLITEMS", 2, rule_allitems),
     ("C08.LABELCOLUMN", 1, _labelcolumn()),
     ("C08.NONETRUTH", 5, rule_nonetruth),
